@@ -11,26 +11,54 @@ import numpy as np
 from .. import common as C
 
 PROP = "C16"
-GEN_REGIONS: List[str] = ["Dsp"]
+GEN_REGIONS: List[str] = ["Dsp", "TimeShift"]
 THEOREMS = {
     "SpecKitV.Lemmas.Taps": ["tap_eq_lagrange", "taps_sum_one", "taps_reproduce_poly", "tap_at_zero"],
     # the taps as translated from dsp.lagrange_taps on every run ARE the model taps, hence the Lagrange weights
     "SpecKitV.Props.TapsGen": ["gen_taps_eq_model", "gen_taps_eq_lagrange", "gen_taps_sum_one", "gen_taps_reproduce_poly", "gen_tap_at_zero"],
     "SpecKitV.Lemmas.TimeShiftPaths": ["clampIdx_lt", "shiftConst_interior", "paths_agree_interior", "shiftConst_is_interpolant",
                                        "shiftConst_reproduces_poly", "shiftConst_integer", "shiftConst_zero", "shiftConst_const"],
+    # dsp.timeshift as translated on every run (Gen.timeshift: order check, trivial cases, floor/fraction split, both paths with their NumPy
+    # calls as stated contracts) IS Model.shiftConst / Model.shiftVar at every sample for every shift; hence the theorems above hold of the code
+    "SpecKitV.Props.TimeShiftGen": ["gen_timeshift_even_order", "gen_timeshift_tiny", "gen_timeshift_zero", "gen_timeshift_size_mismatch", "gen_timeshift_negative_order",
+                                    "gen_timeshift_const_eq_model", "gen_timeshift_var_eq_model",
+                                    "gen_const_interior", "gen_const_is_interpolant", "gen_const_reproduces_poly", "gen_const_integer",
+                                    "gen_zero_identity", "gen_const_constant", "gen_paths_agree_interior", "gen_var_is_interpolant",
+                                    "gen_df_samples", "gen_df_order", "gen_df_numeric_kinds", "gen_df_column_noop", "gen_df_column_eq_model"],
 }
 CONTRACTS = [
     "np.pad(mode='edge') holds the end values; np.pad(default) pads zeros; np.correlate(a, v, 'valid')[n] = sum_k a[n+k] v[k]; "
     "sliding_window_view(x, w)[i] = x[i:i+w]; np.einsum('ij,ij->i') is the row-wise dot product; np.clip / np.floor as documented "
     "(Model.TimeShift models their composition; tied to the real code by the `tshift` correspondence)",
     "pandas: df.copy(), column assignment and Series.to_numpy() for the df_timeshift wrapper (not modelled in Lean; checked by the oracle only)",
+    # region TimeShift (lean/SpecKitV/Np/TimeShift.lean): the NumPy calls of dsp.timeshift as Lean DEFINITIONS, executed against NumPy each run
+    "NpTS.padEdge a l r = np.pad(a, (l, r), mode='edge'): first/last value held (NumPy raises on an empty a; the definition reads a[0])",
+    "NpTS.padZero a l r = np.pad(a, (l, r)) / np.pad(a, w): zeros outside",
+    "NpTS.slice a lo hi = a[lo:hi]: negative bounds count from the end, bounds clamped to 0..len, empty if hi <= lo",
+    "NpTS.correlateValid a v = np.correlate(a, v, mode='valid'): c[n] = sum_k a[n+k] v[k], len(a)-len(v)+1 outputs (operands swapped and the "
+    "result reversed if v is longer); NpTS.convolveValid = the same with v reversed; NpTS.reverse a = a[::-1]",
+    "NpTS.clip x lo hi = np.clip on integers = minimum(maximum(x, lo), hi)",
+    "NpTS.slidingWindow a w = np.lib.stride_tricks.sliding_window_view(a, w): row i is a[i:i+w], len(a)-w+1 rows",
+    "NpTS.take rows idx = rows[idx] (integer fancy indexing along axis 0, negative index from the end; NumPy raises outside the range)",
+    "NpTS.einsumRowDot A B = np.einsum('ij,ij->i', A, B): row-wise dot product",
+    "where NumPy / Python raises, the translated statement is `none`: NpTS.indexRejects n i (a[i] outside -n..n-1), NpTS.takeRejects (fancy index "
+    "out of range), NpTS.padRejects (negative width; mode='edge' extending an empty array), NpTS.einsumRejects (operand shapes differ), empty operand "
+    "of np.correlate, window longer than the array / negative, negative np.repeat count, .item() of size != 1, elementwise operands of different "
+    "lengths (size-1 broadcasting not modelled), lagrange_taps with halfp <= 0; exception type and message are not modelled",
+    "NpTS.repeat x n = np.repeat(x, n); NpTS.all v = np.all(v); NpTS.item a = a.item() (size-1 array); NpTS.ofScalar x: a scalar result / a Python "
+    "float seen through np.asarray is the array of size 1",
+    "np.floor(x) = float of the integer floor, x.astype(int) = truncation toward zero (translated as RealLike.trunc (ofInt (floor x)); proved = floor); "
+    "np.arange(n)[i] = i; elementwise NumPy arithmetic on equal-length arrays is the scalar operation per index; a raised exception is `none`",
+    "lagrange_taps(shift_fracs, halfp) applied to a vector is Gen.lagrange_taps (Gen/Dsp.lean, one shift) per element: the function is elementwise "
+    "along the shift axis (established by the Dsp region's scalarisation, exercised by the `gentaps` / `gentshift` runs)",
 ]
 ASSUMPTIONS = [
-    "theorems are over the reals for the hand model Model.TimeShift (tap, shiftConst, shiftVar); the model is tied to dsp.py by correspondence, "
-    "floating-point rounding is covered by the stated forward tolerances, not by theorem",
+    "theorems are over the reals for the hand model Model.TimeShift (tap, shiftConst, shiftVar); the model is tied to dsp.py structurally: "
+    "lagrange_taps and timeshift are translated to Lean on every run and proved equal to the model (Props/TapsGen, Props/TimeShiftGen), and by "
+    "correspondence; floating-point rounding is covered by the stated forward tolerances, not by theorem",
     "the interpolation/polynomial claims are demanded only where the 2h-point stencil lies inside the record (as the property states); "
     "outside, only the integer-shift end-hold of the constant path is demanded; the zero-padded/clipped edge behaviour of the time-varying "
-    "path is covered by correspondence only",
+    "path is pinned down (translated code = Model.shiftVar at every sample, Props/TimeShiftGen) but no property claim is made about it",
     "df_timeshift is covered by the oracle (real pandas), not by a Lean theorem; its `truncate` option is outside the property",
     "|shift| is kept below 2^53 (np.floor(...).astype(int) is not meaningful beyond)",
 ]
@@ -988,6 +1016,147 @@ def replay(ctx, data) -> C.Part:
     return P
 
 
+# ---------------------------------------------------------------------------------------------------------------- generated code vs source
+def gen_call(drv, op: str):
+    """`NONE` (the translated routine raises) -> None, else the output samples"""
+    r = drv.ask(op)
+    if r.startswith("ERR"):
+        raise RuntimeError(f"driver error {r} on {op[:200]}")
+    if r == "NONE":
+        return None
+    t = r.split()
+    out = np.array([C.h2f(v) for v in t[1:]], dtype=np.float64)
+    if out.size != int(t[0]):
+        raise RuntimeError("driver: malformed array reply")
+    return out
+
+
+def real_call(f):
+    """(output as a flat float array, None) or (None, exception)"""
+    try:
+        return np.asarray(f(), dtype=np.float64).reshape(-1), None
+    except Exception as ex:           # noqa: the translated code must raise (`none`) exactly where the source does
+        return None, ex
+
+
+def gen_compare(P: C.Part, drv, op: str, order: int, x, sv, imp, tol, info: Dict[str, Any]):
+    """Gen.timeshift (translated from dsp.timeshift's current source) in Float vs the real routine, element by element"""
+    gen = gen_call(drv, f"gentshift {int(order)} {C.arr(x)} {C.arr(sv)}")
+    P.cases += 1
+    P.hit(op.replace(" ", "_"))
+    imp = None if imp is None else np.asarray(imp, dtype=np.float64).reshape(-1)
+    if imp is not None and np.ndim(tol) and np.shape(tol) != imp.shape:
+        tol = float(np.max(tol)) if np.size(tol) else 0.0          # an output of unexpected length: one bound for all samples
+    if gen is None or imp is None:
+        ok = gen is None and imp is None
+    else:
+        with np.errstate(invalid="ignore"):
+            same = (np.abs(gen - imp) <= tol) | (np.isnan(gen) & np.isnan(imp)) | (np.isinf(gen) & (gen == imp)) if gen.shape == imp.shape else None
+        ok = same is not None and bool(np.all(same))
+    if not ok:
+        nn = int(np.argmax(np.nan_to_num(np.abs(gen - imp) - tol, nan=np.inf))) if (gen is not None and imp is not None and gen.shape == imp.shape and gen.size) else -1
+        P.disagreements.append(dict(info, op=op, order=int(order), n=nn, impl=None if imp is None else (imp.tolist() if nn < 0 else float(imp[nn])),
+                                    generated=None if gen is None else (gen.tolist() if nn < 0 else float(gen[nn])),
+                                    tol=None if nn < 0 else float(np.broadcast_to(tol, imp.shape)[nn])))
+    return ok
+
+
+def gen_extra(P: C.Part, ctx, crng):
+    """the translated routine on the inputs the main streams do not reach: sizes 0/1, zero shifts (scalar and vector), even orders and size
+    mismatches (the source raises <-> the translation is `none`), size-1 shift arrays, integer records; then the DataFrame wrapper:
+    shift = seconds*fs, default order, which dtype kinds are shifted.  All random choices come from the child generator `crng`."""
+    import inspect
+    import logging
+    import pandas as pd
+    dsp = impl()
+    drv = ctx.driver
+    # -- trivial / rejected inputs
+    for N in (0, 1, 2, 3, 7):
+        x = np.arange(1.0, N + 1.0) * 1.5 - 2.0
+        for order in (1, 3, 31, 2, 0, 4):
+            for sv in ([0.0], [0.5], [-7.25], [3.0], [0.0] * N, [0.25] * N, [0.25] * (N + 2), [0.0, 0.5]):
+                sv = np.array(sv, dtype=np.float64)
+                arg = float(sv[0]) if sv.size == 1 and (N + order) % 2 else sv
+                imp, ex = real_call(lambda: dsp.timeshift(x, arg, order=order))
+                amax = float(np.abs(x).max()) if N else 0.0
+                gen_compare(P, drv, "gentshift edge", order, x, sv, imp, tolc(max((order + 1) // 2, 1)) * 4 * amax,
+                            {"N": N, "shifts": sv.tolist(), "raises": None if ex is None else repr(ex),
+                             "case": {"kind": "const", "data": x.tolist(), "s": float(sv[0]) if sv.size else 0.0, "h": max((order + 1) // 2, 1), "cls": "edge_sizes"}})
+                P.hit("gen_edge_raises" if ex is not None else "gen_edge_returns")
+    # -- more scalar-shift cases around the early returns, integer records, all orders 1..31
+    for i in range(ctx.scale(60, 400)):
+        h = int(crng.integers(1, 17))
+        N = int(crng.integers(2, 2 * h + 12))
+        cls = ["int_boundary", "int", "huge", "edge", "negfrac", "int_near", "eps"][i % 7]
+        s = gen_shift(crng, N, h, cls)
+        x = np.asarray(gen_data(crng, N, ["normal", "int", "trend"][int(crng.integers(0, 3))]), dtype=np.float64)
+        imp, ex = real_call(lambda: dsp.timeshift(x, s, order=2 * h - 1))
+        gen_compare(P, drv, "gentshift boundary", 2 * h - 1, x, np.array([s]), imp, tolc(h) * 4 * float(np.abs(x).max()),
+                    {"h": h, "N": N, "s": s, "cls": cls, "raises": None if ex is None else repr(ex),
+                     "case": {"kind": "const", "data": x.tolist(), "s": s, "h": h, "cls": cls}})
+        P.hit(f"gen_boundary_{cls}")
+        if ex is None and s != 0:
+            P.nontrivial.add(("genconst", h, N, cls, s))
+    # -- the DataFrame wrapper
+    meta = drv.ask("gendfmeta").split(" | ")
+    P.cases += 1
+    P.hit("gendfmeta")
+    want_order = inspect.signature(dsp.timeshift).parameters["order"].default
+    N = 12
+    cols = {"b": np.arange(N) % 3 == 0, "i": np.arange(N, dtype=np.int64) - 4, "u": np.arange(N, dtype=np.uint64), "f": np.arange(N) * 1.5,
+            "c": np.arange(N) * (1 + 2j), "O": np.array([f"r{j}" for j in range(N)], dtype=object), "M": pd.to_datetime(np.arange(N), unit="s"),
+            "m": pd.to_timedelta(np.arange(N), unit="s")}
+    logging.disable(logging.WARNING)
+    try:
+        shifted, tested = "", ""
+        for k, v in cols.items():
+            df = pd.DataFrame({"x": v})
+            try:
+                res = dsp.df_timeshift(df, 2.0, 0.3)
+            except Exception:            # noqa: the wrapper rejects the column (e.g. a result of the wrong length): no information on its kind
+                P.hit("gendfmeta_kind_raises")
+                continue
+            tested += df["x"].dtype.kind
+            if "x_shifted" in res.columns:
+                shifted += df["x"].dtype.kind
+        if len(meta) != 2 or meta[0] != str(want_order) or set(meta[1]) & set(tested) != set(shifted):
+            P.disagreements.append({"op": "gendfmeta", "generated": meta, "impl": {"default_order": want_order, "kinds_shifted": shifted},
+                                    "case": {"kind": "df", "cols": [["a", "f", list(range(40))]], "fs": 2.0, "seconds": 0.3, "columns": None,
+                                             "inplace": False, "suffix": None, "index0": 0}})
+        for i in range(ctx.scale(24, 160)):
+            cls = DF_SHIFT_CLASSES[i % len(DF_SHIFT_CLASSES)]
+            fs = float(DF_FS[int(crng.integers(0, len(DF_FS)))])
+            N = int(crng.integers(34, 90))
+            shift = gen_df_shift(crng, cls) if cls in ("tiny", "small", "near_int") else float(crng.uniform(-1.5, 1.5) * N)
+            seconds = 0.0 if i % 12 == 11 else shift / fs
+            x = crng.standard_normal(N) + 2.0
+            df = pd.DataFrame({"a": x})
+
+            def run():
+                r = dsp.df_timeshift(df, fs, seconds)
+                return r["a_shifted"] if "a_shifted" in r.columns else r["a"]
+            imp, ex = real_call(run)
+            gen = gen_call(drv, f"gendfshift {C.arr(x)} {C.f2h(fs)} {C.f2h(seconds)}")
+            P.cases += 1
+            P.hit("gendfshift")
+            tol = tolc(16) * 4 * float(np.abs(x).max())
+            ok = (gen is None and imp is None) or (gen is not None and imp is not None and gen.shape == imp.shape and bool(np.all(np.abs(gen - imp) <= tol)))
+            if imp is None and gen is not None and gen.size != N and "ength" in repr(ex):
+                # the translated column has the wrong length, and pandas rejects the store of the real one for its length: consistent
+                # (the store itself is outside the translated region)
+                ok = True
+                P.hit("gendfshift_store_rejected")
+            if not ok:
+                P.disagreements.append({"op": "gendfshift", "N": N, "fs": fs, "seconds": seconds, "raises": None if ex is None else repr(ex),
+                                        "impl": None if imp is None else imp.tolist(), "generated": None if gen is None else gen.tolist(),
+                                        "case": {"kind": "df", "cols": [["a", "f", x.tolist()]], "fs": fs, "seconds": seconds, "columns": None,
+                                                 "inplace": False, "suffix": None, "index0": 0}})
+            elif seconds != 0:
+                P.nontrivial.add(("gendf", fs, seconds, N))
+    finally:
+        logging.disable(logging.NOTSET)
+
+
 # ---------------------------------------------------------------------------------------------------------------- correspondence
 def correspondence(ctx) -> C.Part:
     """Model.TimeShift executed in Float by the driver vs the real dsp.lagrange_taps / dsp.timeshift (both paths)"""
@@ -1035,7 +1204,16 @@ def correspondence(ctx) -> C.Part:
         s = gen_shift(rng, N, h, cls)
         si = int(np.floor(s))
         d = float(s - si)
-        imp = np.asarray(dsp.timeshift(x, s, order=2 * h - 1), dtype=np.float64)
+        imp, ex = real_call(lambda: dsp.timeshift(x, s, order=2 * h - 1))
+        if ex is not None:
+            # the routine raises on a valid input: a disagreement with the model (handed to the oracle), not an infrastructure error;
+            # the translated routine must raise (`none`) on the same input
+            P.cases += 1
+            P.hit("const_raises")
+            case = {"kind": "const", "data": x.tolist(), "s": s, "h": h, "cls": cls}
+            P.disagreements.append({"op": "tshift const", "h": h, "N": N, "s": s, "raises": repr(ex), "case": case})
+            gen_compare(P, drv, "gentshift const", 2 * h - 1, x, np.array([s]), None, 0.0, {"h": h, "N": N, "s": s, "raises": repr(ex), "case": case})
+            continue
         mdl = np.array(drv.floats(f"tshift const {h} {C.arr(x)} {si} {C.f2h(d)}"))
         P.cases += 1
         P.hit(f"const_{cls}")
@@ -1055,6 +1233,10 @@ def correspondence(ctx) -> C.Part:
                                     "case": {"kind": "const", "data": x.tolist(), "s": s, "h": h, "cls": cls}})
         elif s != 0:
             P.nontrivial.add(("const", h, N, cls, s))
+        # the routine as TRANSLATED from the source of dsp.timeshift on this run, same case, same tolerance
+        gen_compare(P, drv, "gentshift const", 2 * h - 1, x, np.array([s]), imp, tol,
+                    {"h": h, "N": N, "s": s, "branch": branch, "case": {"kind": "const", "data": x.tolist(), "s": s, "h": h, "cls": cls}})
+        P.hit(f"gen_const_{branch}")
         if i < 3:
             P.sample({"op": "tshift const", "h": h, "N": N, "shift": s, "branch": branch, "impl0": float(imp[0]), "model0": float(mdl[0])})
 
@@ -1072,7 +1254,14 @@ def correspondence(ctx) -> C.Part:
             continue
         sis = np.floor(sv).astype(int)
         dd = sv - sis
-        imp = np.asarray(dsp.timeshift(x, sv, order=2 * h - 1), dtype=np.float64)
+        imp, ex = real_call(lambda: dsp.timeshift(x, sv, order=2 * h - 1))
+        if ex is not None:
+            P.cases += 1
+            P.hit("var_raises")
+            case = {"kind": "var", "data": x.tolist(), "shifts": sv.tolist(), "h": h, "mode": mode}
+            P.disagreements.append({"op": "tshift var", "h": h, "N": N, "mode": mode, "raises": repr(ex), "case": case})
+            gen_compare(P, drv, "gentshift var", 2 * h - 1, x, sv, None, 0.0, {"h": h, "N": N, "mode": mode, "raises": repr(ex), "case": case})
+            continue
         mdl = np.array(drv.floats(f"tshift var {h} {C.arr(x)} " + " ".join(f"{int(a)} {C.f2h(b)}" for a, b in zip(sis, dd))))
         P.cases += 1
         P.hit(f"var_mode_{mode}")
@@ -1093,4 +1282,8 @@ def correspondence(ctx) -> C.Part:
                                     "case": {"kind": "var", "data": x.tolist(), "shifts": sv.tolist(), "h": h, "mode": mode}})
         else:
             P.nontrivial.add(("var", h, N, mode, float(sv[0])))
+        gen_compare(P, drv, "gentshift var", 2 * h - 1, x, sv, imp, tol,
+                    {"h": h, "N": N, "mode": mode, "case": {"kind": "var", "data": x.tolist(), "shifts": sv.tolist(), "h": h, "mode": mode}})
+        P.hit(f"gen_var_mode_{mode}")
+    gen_extra(P, ctx, np.random.default_rng(int(rng.integers(0, 2 ** 62))))
     return P
